@@ -1087,35 +1087,35 @@ class Atoms:
     def __len__(self):
         return len(self.positions)
 
+    # The number of types of a kind is the size of its type table if there is one, also when no atom / term
+    # currently uses it: the count is used as the offset for appended types and as the declared count on writing.
     @property
     def num_atom_types(self):
-        if len(self.atom_types) == 0:
-            return 0
         return len(self.atom_type_elements)
+
+    @staticmethod
+    def _num_types(type_coeffs, types):
+        if len(type_coeffs) > 0:
+            return len(type_coeffs)
+        if len(types) == 0:
+            return 0
+        return max(types) + 1
 
     @property
     def num_bond_types(self):
-        if len(self.bond_types) == 0:
-            return 0
-        return len(self.bond_type_coeffs) or max(self.bond_types) + 1
+        return self._num_types(self.bond_type_coeffs, self.bond_types)
 
     @property
     def num_angle_types(self):
-        if len(self.angle_types) == 0:
-            return 0
-        return len(self.angle_type_coeffs) or max(self.angle_types) + 1
+        return self._num_types(self.angle_type_coeffs, self.angle_types)
 
     @property
     def num_dihedral_types(self):
-        if len(self.dihedral_types) == 0:
-            return 0
-        return len(self.dihedral_type_coeffs) or max(self.dihedral_types) + 1
+        return self._num_types(self.dihedral_type_coeffs, self.dihedral_types)
 
     @property
     def num_improper_types(self):
-        if len(self.improper_types) == 0:
-            return 0
-        return len(self.improper_type_coeffs) or max(self.improper_types) + 1
+        return self._num_types(self.improper_type_coeffs, self.improper_types)
 
     def extend_types(self, other):
         offsets = (self.num_atom_types, self.num_bond_types,
